@@ -67,7 +67,9 @@ RULE = (
     'also above a level that merely repeats names from below -, differing '
     'order within a level), fields base + amp * '
     'pattern, written by the struct-only reference encoder; arlpackedbit('
-    'file): data variable set = surface names + union of the upper-level '
+    'file) - in 2/3 of the file cases after a second ARL file with another '
+    'level table has been opened (kept open or dropped) in between -: data '
+    'variable set = surface names + union of the upper-level '
     'names (each variable on exactly the levels that carry it), z = level heights, '
     'SFCVGLVL, times (yy mm dd hh of every index label; the time variable '
     '= exact hours since the first record with that reference instant; '
@@ -449,7 +451,9 @@ def file_case_inner(draw, nts=(1, 2, 2, 3, 3, 4), modes=None, nlevs=None,
                                              0.015625])),
                        draw(st.integers(0, 1000))])
     return dict(kind='file', nx=nx, ny=ny, times=times, levels=levels,
-                sfc=sfc, upper=upp, uplists=uplists, vsys=draw(st.sampled_from([1, 2, 3, 4])),
+                sfc=sfc, upper=upp, uplists=uplists,
+                bystander=draw(st.sampled_from([None, 'open', 'closed'])),
+                vsys=draw(st.sampled_from([1, 2, 3, 4])),
                 synch=[draw(st.sampled_from([20.0, -30.5, 0.0])),
                        draw(st.sampled_from([-100.0, 0.0, 170.25]))],
                 delta=[draw(st.sampled_from([1.0, 0.25, 2.5])),
@@ -761,6 +765,8 @@ def check_file(spec):
     r.nontrivial = bool(nt >= 2 and nlev >= 3)
     if nt >= 2 and nlev >= 3:
         r.label('multi-time-multi-level')
+    if spec.get('bystander'):
+        r.label('bystander:' + spec['bystander'])
     if spec.get('ramp'):
         r.label('file-long-ramp:' + spec['ramp']['dir'])
     if spec['nx'] >= 1000 or spec['ny'] >= 1000:
@@ -810,13 +816,30 @@ def check_file(spec):
     path = os.path.join(base, 'in.arl')
     with open(path, 'wb') as fo:
         fo.write(buf)
-    f = None
+    f = fb = None
     try:
         from PseudoNetCDF.noaafiles._arl import (arlpackedbit,
                                                  writearlpackedbit)
         ok, f = guard(r, 'reader-open', lambda: arlpackedbit(path))
         if not ok:
             return r
+        # bystander: another ARL file with a different level table is opened
+        # (and kept open or dropped) before anything is read from the file
+        # under test; nothing read from the first file may depend on it
+        if spec.get('bystander'):
+            bspec = bystander_spec(spec)
+            benc, _ = file_model(bspec)
+            bbuf, _ = A.encode(benc)
+            bpath = os.path.join(base, 'bystander.arl')
+            with open(bpath, 'wb') as fo:
+                fo.write(bbuf)
+            okb, fb = guard(r, 'bystander-open', lambda: arlpackedbit(bpath))
+            if okb:
+                guard(r, 'bystander-read', lambda: np.asarray(
+                    fb.variables[bspec['upper'][0]][...]))
+                if spec['bystander'] == 'closed':
+                    fb = None
+                    gc.collect()
         want = spec['sfc'] + upper_union(spec)
         got = [k for k in f.variables.keys()
                if k not in ('x', 'y', 'x_bounds', 'y_bounds', 'time', 'z',
@@ -909,10 +932,22 @@ def check_file(spec):
             if ok:
                 check_written(r, spec, dec, fields, opath)
     finally:
-        f = None
+        f = fb = None
         gc.collect()
         shutil.rmtree(base, ignore_errors=True)
     return r
+
+
+def bystander_spec(spec):
+    """a small second file: same first upper variable name, but two levels
+    from a level set whose heights differ from the file under test"""
+    other = [ls for ls in LEVELSETS if ls[1] != spec['levels'][1]][
+        len(spec['sfc']) % (len(LEVELSETS) - 1)]
+    up = upper_union(spec)[0]
+    return dict(kind='file', nx=17, ny=17, times=[spec['times'][0]],
+                levels=other[:2], sfc=[spec['sfc'][0]], upper=[up],
+                uplists=[[up]], vsys=spec['vsys'], synch=spec['synch'],
+                delta=spec['delta'], fields=[[0.0, 1.0, 1], [0.0, 1.0, 2]])
 
 
 def _times(f):
